@@ -239,19 +239,19 @@ const c15FaultRule = "fault enumeration: generated histories of 3..9 actions (ex
 func TestC15_RegistryFaultPoints(t *testing.T) {
 	recC15.AddRule(c15FaultRule)
 	c15Assumptions()
-	runRapid(t, N(25, 400), func(rt *rapid.T) { runC15FaultPoints(rt, kindRegistry) })
+	runRapid(t, N(25, 1600), func(rt *rapid.T) { runC15FaultPoints(rt, kindRegistry) })
 }
 
 func TestC15_SequencerFaultPoints(t *testing.T) {
 	recC15.AddRule(c15FaultRule)
 	c15Assumptions()
-	runRapid(t, N(25, 400), func(rt *rapid.T) { runC15FaultPoints(rt, kindSequencer) })
+	runRapid(t, N(25, 1600), func(rt *rapid.T) { runC15FaultPoints(rt, kindSequencer) })
 }
 
 func TestC15_MultiEventFaultPoints(t *testing.T) {
 	recC15.AddRule(c15FaultRule)
 	c15Assumptions()
-	runRapid(t, N(25, 400), func(rt *rapid.T) { runC15FaultPoints(rt, kindMulti) })
+	runRapid(t, N(25, 1600), func(rt *rapid.T) { runC15FaultPoints(rt, kindMulti) })
 }
 
 // ---------------------------------------------------------------------------
